@@ -262,7 +262,57 @@ def transforms(spec, tier):
     for e in edges:
         for f in FRACTIONS:
             out.append({"family": "split", "edge": e, "frac": f})
+    # the library's own tree operations (the families above build the transformed tree in the driver)
+    if not spec.get("edge_params"):
+        out.append({"family": "library", "op": "lengths_from_tree", "tiny": False})
+        out.append({"family": "library", "op": "lengths_from_tree", "tiny": True})
+        if name in F.REVERSIBLE:
+            out.append({"family": "library", "op": "unrooted"})
+            out.append({"family": "library", "op": "unrooted_children_reversed"})
+            out.append({"family": "library", "op": "root_at_midpoint"})
+            for n in internals:
+                out.append({"family": "library", "op": "rooted_at", "arg": n})
+            for t in tips:
+                out.append({"family": "library", "op": "rooted_with_tip", "arg": t})
     return out
+
+
+TINY = 4e-7  # a legal positive branch length below any default / tolerance constant in the library
+
+
+def lnl_of_library_tree(spec, tr):
+    """lnL of a function built on a tree produced by cogent3's own tree methods, branch lengths carried by the tree"""
+    from cogent3 import make_tree
+
+    tree = D.to_tree(spec["tree"])
+    lengths = dict(spec["lengths"])
+    if tr.get("tiny"):
+        first = sorted(lengths)[0]
+        lengths[first] = TINY
+    if any(not l > 0 for l in lengths.values()):
+        return None, None  # a zero length on a tree object is documented to be replaced by a default
+    if tr["op"] == "unrooted_children_reversed":
+        tree = (tree[0], list(reversed(tree[1]))) if not isinstance(tree, str) else tree
+    ct = make_tree(F.newick(tree, lengths))
+    op = tr["op"]
+    if op in ("unrooted", "unrooted_children_reversed"):
+        ct = ct.unrooted()
+    elif op == "root_at_midpoint":
+        ct = ct.root_at_midpoint()
+    elif op == "rooted_at":
+        ct = ct.rooted_at(tr["arg"])
+    elif op == "rooted_with_tip":
+        ct = ct.rooted_with_tip(tr["arg"])
+    sm = D.make_model(spec["model"], spec.get("model_kw"), None)
+    lf = sm.make_likelihood_function(ct)
+    mp = D.pi_dict(spec)
+    if mp is not None:
+        lf.set_motif_probs(mp)
+    lf.set_alignment(make_aln(spec["kind"], spec["tips"], spec["tips"], spec["cols"]))
+    for t, v in spec["params"].items():
+        lf.set_param_rule(t, value=float(v), is_constant=True)
+    expected = lnl_of(spec, lengths=lengths) if tr.get("tiny") else None
+    return float(lf.lnL), expected
 
 
 # ----------------------------------------------------------------------------- evaluation
@@ -301,6 +351,11 @@ def apply_transform(spec, tr, base_cache):
         else:
             new = [cols[i] for i in range(len(cols)) for _ in range(m[i])]
         return lnl_of(spec, cols=new), float(sum(k * l for k, l in zip(m, base_cache["single"])))
+    if fam == "library":
+        got, expected = lnl_of_library_tree(spec, tr)
+        if got is None:
+            return base, base  # not applicable (a zero length), nothing to compare
+        return got, (base if expected is None else expected)
     lengths, ep = spec["lengths"], spec.get("edge_params") or {}
     if fam == "reroot":
         if "node" in tr:
@@ -327,6 +382,10 @@ def sig_for(spec, tr):
         return f"lnL changes under re-rooting {where} [{kind}; {scope}]"
     if fam == "split":
         return f"lnL changes when an edge is split [{kind}; {scope}]"
+    if fam == "library":
+        if tr["op"] == "lengths_from_tree":
+            return f"lnL differs between branch lengths carried by the tree and the same lengths set as parameters [{kind}; {'tiny length' if tr.get('tiny') else 'ordinary lengths'}]"
+        return f"lnL changes under the library's own {tr['op'].replace('_children_reversed', '')}() [{kind}]"
     if fam == "multiset":
         return f"lnL of repeated / merged columns != sum of multiplicity * column lnL [{kind}]"
     return f"lnL changes under permutation of {fam} [{kind}]"
